@@ -108,17 +108,19 @@ def build_repo(variant="asan", log=None):
         if os.path.exists(os.path.join(d, "OK")):
             os.utime(os.path.join(d, "OK"))
             return b
-        # drop stale builds of this variant (disk is limited)
+        # drop stale builds of this variant (disk is limited) -- but only those nobody has touched for a while: another check may be
+        # running against them right now (checks of one tree share a build; a tree that changes under a running check gets a new one)
         os.makedirs(CACHE, exist_ok=True)
         for name in os.listdir(CACHE):
-            if name.startswith("build-%s-" % variant) and name != os.path.basename(d):
-                shutil.rmtree(os.path.join(CACHE, name), ignore_errors=True)
-            if name.startswith("harness-") and os.path.isdir(os.path.join(CACHE, name)):
+            path = os.path.join(CACHE, name)
+            if name.startswith("build-%s-" % variant) and name != os.path.basename(d) and _idle(os.path.join(path, "OK")):
+                shutil.rmtree(path, ignore_errors=True)
+            if name.startswith("harness-") and os.path.isdir(path):
                 # harness binaries of older builds
-                st = os.path.join(CACHE, name, "BUILDKEY")
+                st = os.path.join(path, "BUILDKEY")
                 try:
-                    if open(st).read().strip().startswith(variant + ":") and open(st).read().strip() != variant + ":" + key:
-                        shutil.rmtree(os.path.join(CACHE, name), ignore_errors=True)
+                    if open(st).read().strip().startswith(variant + ":") and open(st).read().strip() != variant + ":" + key and _idle(st):
+                        shutil.rmtree(path, ignore_errors=True)
                 except OSError:
                     pass
         shutil.rmtree(d, ignore_errors=True)
@@ -156,6 +158,17 @@ def build_repo(variant="asan", log=None):
 
 class BuildError(Exception):
     pass
+
+
+STALE_AFTER_S = 2 * 3600
+
+
+def _idle(marker):
+    """the cache entry with this marker file has not been used for STALE_AFTER_S (markers are touched on every use)"""
+    try:
+        return time.time() - os.path.getmtime(marker) > STALE_AFTER_S
+    except OSError:
+        return True
 
 
 def header_build(variant="plain"):
@@ -205,9 +218,13 @@ def build_harness(b, name, sources, extra_flags=()):
     exe = os.path.join(d, name)
     with Lock("harness-" + name):
         if os.path.exists(exe):
+            try:
+                os.utime(os.path.join(d, "BUILDKEY"))
+            except OSError:
+                pass
             return exe
         for n in os.listdir(CACHE):
-            if n.startswith("harness-%s-" % name):
+            if n.startswith("harness-%s-" % name) and _idle(os.path.join(CACHE, n, "BUILDKEY")):
                 shutil.rmtree(os.path.join(CACHE, n), ignore_errors=True)
         os.makedirs(d, exist_ok=True)
         open(os.path.join(d, "BUILDKEY"), "w").write(b.variant + ":" + os.path.basename(b.dir).split("-")[-1])
